@@ -154,7 +154,10 @@ def commitTrav (cfg : Cfg κ) (strat : Strat) : Trav (World κ) :=
 /-- run one traversal per target with a fresh recursion stack and a shared memo -/
 def perTarget (f : Bytes → World κ → Except Err (World κ)) : List Bytes → World κ → Except Err (World κ)
   | [], w => .ok w
-  | t :: r, w => match f t w with
+  | t :: r, w =>
+    -- a target that is not in the index: `idx[stagePath]` fails with "unknown stage"
+    if (alookup w.idx t).isNone then .error .unknownStage else
+    match f t w with
     | .error e => .error e
     | .ok w' => perTarget f r w'
 
